@@ -198,10 +198,13 @@ func (w *Writer) AppendPageRef(ref pdf.Reference, p *page.Page) error {
 	}
 	w.tail = append(w.tail, node)
 
-	for _, fn := range w.nextPageNumberCb {
+	// Detach the list before firing: a callback may call NextPageNumber
+	// again, and such a registration refers to the page after this one.
+	cbs := w.nextPageNumberCb
+	w.nextPageNumberCb = nil
+	for _, fn := range cbs {
 		w.nextPageNumber.WhenAvailable(fn)
 	}
-	w.nextPageNumberCb = w.nextPageNumberCb[:0]
 
 	// increment the page numbers
 	w.nextPageNumber = w.nextPageNumber.Inc()
@@ -250,10 +253,13 @@ func (w *Writer) AppendPageDict(ref pdf.Reference, dict pdf.Dict) error {
 	}
 	w.tail = append(w.tail, node)
 
-	for _, fn := range w.nextPageNumberCb {
+	// Detach the list before firing: a callback may call NextPageNumber
+	// again, and such a registration refers to the page after this one.
+	cbs := w.nextPageNumberCb
+	w.nextPageNumberCb = nil
+	for _, fn := range cbs {
 		w.nextPageNumber.WhenAvailable(fn)
 	}
-	w.nextPageNumberCb = w.nextPageNumberCb[:0]
 
 	w.nextPageNumber = w.nextPageNumber.Inc()
 
